@@ -103,6 +103,10 @@ func TestVerifE5Replay(t *testing.T) {
 	switch name {
 	case "f7_empty_stale_index", "f7_unrelated_removed", "f7_req_empty", "f7_touch_empty":
 		vfE5ReplayF7(t, name)
+	case "ephemeral_topic_two_last_deletes", "ephemeral_topic_delete_races_create":
+		vfE5ReplayEphTopic(t, name)
+	case "ephemeral_topic_concurrent_leave":
+		vfE5ReplayEphLeave(t, name)
 	case "delete_races_getchannel":
 		vfE5ReplayDeleteGetChannel(t, name)
 	case "fin_races_empty_count", "req_races_empty_count":
@@ -830,4 +834,124 @@ func vfE5ReplayAnswerEmpty(t *testing.T, name string) {
 	fmt.Printf("E5REPLAY %s both_delivered=%v count_after=%d in_flight_map_after=%d third_delivered=%v count_end=%d in_flight_map_end=%d wrong=%v\n",
 		name, got, cnt, inMap, third, cnt2, inMap2, cnt != int64(inMap) || cnt2 != int64(inMap2) || cnt < 0 || !third)
 	n.Exit()
+}
+
+// Ephemeral topic auto-delete under concurrent channel deletion.
+//  two_last_deletes: the last two channels of an #ephemeral topic are deleted concurrently (both
+//    DeleteExistingChannel calls are parked at chan.exit.stage1, i.e. both have done their lookup, then
+//    released): afterwards the topic must be gone (its once-only delete callback ran exactly once).
+//  delete_races_create: the single last channel is being deleted (parked at chan.exit.stage1) while another
+//    channel is created and subscribed to; afterwards the topic must still exist with that channel.
+func vfE5ReplayEphTopic(t *testing.T, name string) {
+	opts := vfE5Opts(t.TempDir())
+	opts.MemQueueSize = 4
+	n, err := New(opts)
+	if err != nil {
+		t.Fatal(err)
+	}
+	n.LoadMetadata()
+	go n.Main()
+	var deleted int32
+	topic := n.GetTopic("et#ephemeral")
+	inner := topic.deleteCallback
+	topic.deleteCallback = func(tp *Topic) { atomic.AddInt32(&deleted, 1); inner(tp) }
+	topic.GetChannel("c1")
+	two := name == "ephemeral_topic_two_last_deletes"
+	if two {
+		topic.GetChannel("c2")
+	}
+	arrived, rel := vfE5NewGateAll("chan.exit.stage1")
+	d1 := make(chan string, 1)
+	d2 := make(chan string, 1)
+	go func() { d1 <- vfE5Try(10*time.Second, func() { topic.DeleteExistingChannel("c1") }) }()
+	want := int32(1)
+	if two {
+		go func() { d2 <- vfE5Try(10*time.Second, func() { topic.DeleteExistingChannel("c2") }) }()
+		want = 2
+	} else {
+		d2 <- "n/a"
+	}
+	for d := time.Now().Add(5 * time.Second); atomic.LoadInt32(arrived) < want && time.Now().Before(d); {
+		time.Sleep(time.Millisecond)
+	}
+	sub := "n/a"
+	if !two {
+		// a new consumer subscribes to another channel of the topic while its last channel is going away
+		c3 := topic.GetChannel("c3")
+		if err := c3.AddClient(501, newClientV2(501, &vfE5Conn{}, n)); err != nil {
+			sub = "err"
+		} else {
+			sub = "ok"
+		}
+	}
+	close(rel)
+	r1, r2 := <-d1, <-d2
+	// the once-only callback runs in its own goroutine: join it (a second Do returns after the first)
+	gone := false
+	for d := time.Now().Add(1500 * time.Millisecond); time.Now().Before(d); {
+		if _, err := n.GetExistingTopic("et#ephemeral"); err != nil {
+			gone = true
+			break
+		}
+		time.Sleep(time.Millisecond)
+	}
+	topic.RLock()
+	left := len(topic.channelMap)
+	topic.RUnlock()
+	wrong := false
+	if two {
+		wrong = !gone || atomic.LoadInt32(&deleted) != 1
+	} else {
+		wrong = gone || left != 1 || sub != "ok" || atomic.LoadInt32(&deleted) != 0
+	}
+	fmt.Printf("E5REPLAY %s parked_deletes=%d delete1=%s delete2=%s sub_other_channel=%s topic_gone=%v channels_left=%d delete_callback_runs=%d wrong=%v\n",
+		name, atomic.LoadInt32(arrived), r1, r2, sub, gone, left, atomic.LoadInt32(&deleted), wrong)
+	os.Exit(0)
+}
+
+// unsteered: the last consumers of the two ephemeral channels of an ephemeral topic leave at the same
+// moment (two goroutines released together), many rounds; each round the topic must disappear.
+func vfE5ReplayEphLeave(t *testing.T, name string) {
+	opts := vfE5Opts(t.TempDir())
+	opts.MemQueueSize = 4
+	n, err := New(opts)
+	if err != nil {
+		t.Fatal(err)
+	}
+	n.LoadMetadata()
+	go n.Main()
+	rounds := vfEnvInt("VERIF_ROUNDS", 150)
+	stuck := 0
+	first := -1
+	for i := 0; i < rounds; i++ {
+		tn := fmt.Sprintf("el%d#ephemeral", i)
+		topic := n.GetTopic(tn)
+		c1 := topic.GetChannel("a#ephemeral")
+		c2 := topic.GetChannel("b#ephemeral")
+		c1.AddClient(1, newClientV2(1, &vfE5Conn{}, n))
+		c2.AddClient(2, newClientV2(2, &vfE5Conn{}, n))
+		start := make(chan struct{})
+		done := make(chan struct{}, 2)
+		go func() { <-start; c1.RemoveClient(1); done <- struct{}{} }()
+		go func() { <-start; c2.RemoveClient(2); done <- struct{}{} }()
+		close(start)
+		<-done
+		<-done
+		gone := false
+		for d := time.Now().Add(time.Second); time.Now().Before(d); {
+			if _, err := n.GetExistingTopic(tn); err != nil {
+				gone = true
+				break
+			}
+			time.Sleep(200 * time.Microsecond)
+		}
+		if !gone {
+			stuck++
+			if first < 0 {
+				first = i
+			}
+		}
+	}
+	fmt.Printf("E5REPLAY %s rounds=%d topics_left_behind=%d first_round=%d wrong=%v\n", name, rounds, stuck, first, stuck > 0)
+	os.Exit(0)
 }
